@@ -12,6 +12,7 @@ package c13
 
 import (
 	"fmt"
+	"io"
 	"reflect"
 	"sort"
 	"strings"
@@ -27,6 +28,7 @@ import (
 	"lunar/toolkit-core/urltree"
 
 	"github.com/rs/zerolog"
+	zlog "github.com/rs/zerolog/log"
 	"pgregory.net/rapid"
 
 	"verif/harness/internal/ev"
@@ -1072,12 +1074,41 @@ func TestPolicyTreeRandom(t *testing.T) {
 			orders = append(orders, id, rev)
 			orders = append(orders, rapid.SliceOfN(rapid.Permutation(id), 6, 6).Draw(t, "orders")...)
 		}
+		// the log level the gateway runs at (LOG_LEVEL; output discarded): it must not change any answer
+		level := rapid.SampledFrom(logLevels).Draw(t, "log level")
 		r.CaseN(int64(len(reqs))) // one evaluation per (declaration set, request)
 		r.Class(fmt.Sprintf("declarations=%d", len(ds)))
-		v, fail, err := checkSet(r, ds, orders, reqs)
+		r.Class("log level " + level)
+		var v *verdict
+		var fail *caseRepr
+		var err error
+		withLogLevel(level, func() { v, fail, err = checkSet(r, ds, orders, reqs) })
+		if fail != nil {
+			fail.Note = strings.TrimSpace(fail.Note + " (gateway log level: " + level + ")")
+		}
 		finish(t, r, fail, err)
 		record(r, ds, reqs, v)
 	})
+}
+
+var logLevels = []string{"off", "off", "error", "info", "debug", "debug", "trace"}
+
+// withLogLevel runs f with the process-wide zerolog level of a gateway started with LOG_LEVEL=level; what is
+// logged is thrown away.
+func withLogLevel(level string, f func()) {
+	lv, err := zerolog.ParseLevel(level)
+	if level == "off" || err != nil {
+		f()
+		return
+	}
+	prev := zlog.Logger
+	zlog.Logger = zerolog.New(io.Discard)
+	zerolog.SetGlobalLevel(lv)
+	defer func() {
+		zerolog.SetGlobalLevel(zerolog.Disabled)
+		zlog.Logger = prev
+	}()
+	f()
 }
 
 // Bounded-exhaustive: every set of 1..3 declarations over six overlapping patterns and
